@@ -448,3 +448,68 @@ specialise(
     bounds="one row per documented question type / alias spelling (37 type cells from spec/tables.py QUESTION_TYPES, fixed per instance) + one neighbour row; control tag, control attribute set, bind attribute set, label and instance node compared with the independent table",
     weight=30,
 )
+
+
+# ---- e: parameter-derived attributes next to appearance / body:: cells (round 3) --------------------------
+PARAM_CASES = [
+    ("geopoint", "capture-accuracy=5 warning-accuracy=9", "input", {"accuracyThreshold": "5", "unacceptableAccuracyThreshold": "9"}, {"type": "geopoint"}),
+    ("geopoint", "warning-accuracy=7", "input", {"unacceptableAccuracyThreshold": "7"}, {"type": "geopoint"}),
+    ("geotrace", "allow-mock-accuracy=true", "input", {}, {"type": "geotrace", "odk:allow-mock-accuracy": "true"}),
+    ("range", "start=2 end=8 step=2", "range", {"start": "2", "end": "8", "step": "2"}, {"type": "int"}),
+    ("text", "rows=3", "input", {"rows": "3"}, {"type": "string"}),
+    ("image", "max-pixels=640", "upload", {"mediatype": "image/*"}, {"type": "binary", "orx:max-pixels": "640"}),
+    ("audio", "quality=low", "upload", {"mediatype": "audio/*"}, {"type": "binary", "odk:quality": "low"}),
+]
+
+
+def c04_params_appearance(case: int, has_app: bool, has_body: bool, in_group: bool, a0: int, a1: int, b0: int) -> bool:
+    """
+    vpre: 97 <= a0 <= 122 and 97 <= a1 <= 122 and 97 <= b0 <= 122
+    vpost: _ == True
+    """
+    typ, params, tag, cattrs, battrs = PARAM_CASES[case]
+    A, Bv = S(a0, a1), S(b0, 49)
+    q = {"type": typ, "name": "q1", "label": "L", "parameters": params}
+    want = dict(cattrs)
+    if has_app:
+        q["appearance"] = A
+        want["appearance"] = A
+    if has_body:
+        q["body::kk"] = Bv
+        want["kk"] = Bv
+    rows = [{"type": "begin group", "name": "g", "label": "G", "appearance": "field-list"}, q, {"type": "end group"}] if in_group else [q]
+    rows.append({"type": typ, "name": "q2", "label": "M"})  # a neighbour of the same type without parameters
+    survey, _w, _js = build_survey({"survey": rows})
+    root = survey.xml()
+    path = "/data/g/q1" if in_group else "/data/q1"
+    want["ref"] = path
+    c = [e for e in elements(root, tag) if e.getAttribute("ref") == path]
+    if len(c) != 1 or {k: c[0].getAttribute(k) for k in c[0].attributes.keys()} != want:
+        return False
+    b = [e for e in elements(root, "bind") if e.getAttribute("nodeset") == path]
+    wb_ = dict(battrs)
+    wb_["nodeset"] = path
+    if len(b) != 1 or {k: b[0].getAttribute(k) for k in b[0].attributes.keys()} != wb_:
+        return False
+    # the neighbour carries none of it
+    c2 = [e for e in elements(root, tag) if e.getAttribute("ref") == "/data/q2"]
+    d2 = {k: v for k, v in cattrs.items() if k == "mediatype"}
+    if typ == "range":
+        d2 = {"start": "1", "end": "10", "step": "1"}
+    d2["ref"] = "/data/q2"
+    return len(c2) == 1 and {k: c2[0].getAttribute(k) for k in c2[0].attributes.keys()} == d2
+
+
+specialise(
+    "C04",
+    "e.params-appearance",
+    c04_params_appearance,
+    {"case": list(range(len(PARAM_CASES)))},
+    reach_if=lambda fx: fx["case"] in (0, 3),
+    timeout=300,
+    kernel=K + ("pyxform.xls2json:workbook_to_json", "pyxform.question:RangeQuestion.build_xml", "pyxform.question:UploadQuestion.build_xml"),
+    shims=("S1", "S2", "S3", "S4"),
+    symbolic="presence of an appearance cell (2 symbolic letters), of a body:: column (1 symbolic letter) and of an enclosing field-list group (3 symbolic booleans)",
+    bounds="7 (type, parameters) cases fixed per instance (geopoint accuracy thresholds, geotrace mock accuracy, range start/end/step, text rows, image max-pixels, audio quality); exact control and bind attribute sets from the XLSForm reference, neighbour row of the same type unaffected",
+    weight=30,
+)
